@@ -1,14 +1,19 @@
 #!/usr/bin/env python3
-"""development aid: show how far each label floor is from being missed in the current evidence files"""
-import json, checkcfg
+"""development aid: show how far each label floor is from being missed (needs a fresh ./runall.sh; reads .work stats)"""
+import json, glob, os, checkcfg
 for pid, c in sorted(checkcfg.CHECKS.items()):
-    try:
-        ev = json.load(open("evidence/%s.json" % pid))
-    except Exception:
-        continue
-    cov = ev["coverage"]
-    n = max(1, cov["evaluations"] - sum(v for k, v in cov.get("counters", {}).items() if k.startswith("fuzz_execs.")))
-    for lab, fr in (c.get("floors") or {}).items():
-        got = cov["labels"].get(lab, 0) / n
-        flag = "  <-- TIGHT" if got < 1.6 * fr else ""
-        print("%s %-45s floor %.3f got %.3f%s" % (pid, lab, fr, got, flag))
+    per = {}
+    for sp in glob.glob(".work/%s/*/stats.json" % pid):
+        test = os.path.basename(os.path.dirname(sp)).rsplit(".", 1)[0]
+        st = json.load(open(sp))
+        d = per.setdefault(test, dict(n=0, labels={}))
+        d["n"] += st.get("evaluations", 0)
+        for k, v in (st.get("labels") or {}).items():
+            d["labels"][k] = d["labels"].get(k, 0) + v
+    for key, fr in (c.get("floors") or {}).items():
+        test, lab = key.split(":", 1)
+        d = per.get(test)
+        if not d or not d["n"]:
+            print("%s %-55s (job did not run)" % (pid, key)); continue
+        got = d["labels"].get(lab, 0) / d["n"]
+        print("%s %-55s floor %.3f got %.3f%s" % (pid, key, fr, got, "  <-- TIGHT" if got < 1.6 * fr else ""))
